@@ -732,7 +732,9 @@ theorem setMargins_grid (s : Scr) (a b : Int) :
     (s.setMargins a b).grid = s.grid ∧ (s.setMargins a b).w = s.w ∧ (s.setMargins a b).h = s.h := by
   unfold Scr.setMargins
   simp only []
-  split <;> simp
+  split
+  · simp
+  · split <;> simp
 
 /-! ### the damage of each token class, as a set of rows -/
 
@@ -1569,7 +1571,9 @@ theorem setMargins_fields (s : Scr) (a b : Int) :
     (s.setMargins a b).cx = s.cx ∧ (s.setMargins a b).cy = s.cy ∧ (s.setMargins a b).sty = s.sty := by
   unfold Scr.setMargins
   simp only []
-  split <;> simp
+  split
+  · simp
+  · split <;> simp
 
 theorem ntf_switchScreen (t : Term) (v : Bool) : Ntf t (t.switchScreen v) := by
   unfold Term.switchScreen
